@@ -156,6 +156,11 @@ func doBind(sc *Collection, originalInvokeF *provider, originalInitF *provider, 
 	// calculate for the static set
 	for i := invokeIndex - 1; i >= 0; i-- {
 		fm := funcs[i]
+		if !fm.include {
+			// a provider that is not in the chain never runs: what it would have
+			// output must not be zeroed when a fallible static injector fails
+			continue
+		}
 		fm.mustZeroIfRemainderSkipped = vmapMapped(downVmap)
 		addToVmap(fm, outputParams, downVmap, fm.downRmap, &vCount)
 	}
